@@ -194,7 +194,9 @@ class CirculationPump(BranchWOInternalsComponent):
         from_nodes = get_from_nodes_corrected(branch_pit[f:t])
         t_from = node_pit[from_nodes, TINIT]
         tout = branch_pit[f:t, TOUTINIT]
-        res_table['deltat_k'].values[:] = t_from - tout
+        # only circulation pumps that were calculated report a temperature difference and heat flow
+        active = get_lookup(net, "branch", "active_hydraulics")[f:t]
+        res_table['deltat_k'].values[active] = (t_from - tout)[active]
 
         fluid = get_fluid(net)
 
@@ -202,4 +204,4 @@ class CirculationPump(BranchWOInternalsComponent):
         cp_i1 = fluid.get_heat_capacity(tout)
 
         mass = branch_pit[f:t, MDOTINIT]
-        res_table['qext_w'].values[:] = mass * (cp_i1 * tout - cp_i * t_from)
+        res_table['qext_w'].values[active] = (mass * (cp_i1 * tout - cp_i * t_from))[active]
